@@ -1,57 +1,178 @@
-"""Generate and discharge the obligations of contracted functions (one worker process per function)."""
+"""Generate and discharge the obligations of contracted functions.
+
+One *guarded* worker process per function: the worker has an address-space limit and reports every obligation as it goes; the parent kills a
+worker that does not answer within a hard deadline (z3's own timeout is cooperative and a matching loop can outrun it or exhaust memory),
+records the obligation in progress as `timeout` and lets a fresh worker continue with the remaining obligations. A check therefore ends in
+bounded time and memory whatever the code under verification looks like; a killed obligation is undecided, never a violation.
+"""
+import multiprocessing as mp
 import os
 import sys
 import time
 import traceback
-from concurrent.futures import ProcessPoolExecutor
+from concurrent.futures import ThreadPoolExecutor
+
+MEM_LIMIT = int(os.environ.get("VERIF_WORKER_MEM_GB", "10")) << 30   # address space of one worker
+GEN_DEADLINE = 600.0          # seconds for symbolic execution of one function (path pruning uses small solver budgets)
+MAX_RESPAWN = 4               # workers restarted at most this often per function; what is left after that is `timeout`
 
 
-def verify_one(args):
-    qual, repo, timeout_ms = args
-    import z3
+def _solve(o, timeout_ms):
+    from .core import discharge
+    if o.kind == "canary":
+        (st, dt, why), = discharge(o.hyps, [o.goal], min(timeout_ms, 2500), portfolio=False)
+        status = "vacuous" if st == "discharged" else "ok"     # a canary is fine when False is NOT provable
+    else:
+        (st, dt, why), = discharge(o.hyps, [o.goal], timeout_ms)
+        status = st
+    return dict(name=o.name, kind=o.kind, clause=o.clause, tag=o.tag, status=status, time=round(dt, 4), reason=why, trace=o.trace[-6:])
+
+
+def _generate(qual, repo):
     from .engine import Engine
-    from .core import Unsupported, ContractError, discharge
+    from .core import Unsupported, ContractError
     from ..contracts.registry import build
-    t0 = time.time()
-    reg = build()
-    eng = Engine(reg, repo)
-    out = dict(qual=qual, obligations=[], info=None, paths=0, status="ok", reason="", gen_s=0.0, solve_s=0.0)
+    eng = Engine(build(), repo)
     try:
         obls, info, n_paths = eng.verify(qual)
     except Unsupported as ex:
-        out.update(status="undecided", reason=f"unsupported: {ex}")
-        return out
+        return None, dict(status="undecided", reason=f"unsupported: {ex}")
     except ContractError as ex:
-        out.update(status="contract-error", reason=str(ex))
-        return out
+        return None, dict(status="contract-error", reason=str(ex))
+    except MemoryError:
+        return None, dict(status="undecided", reason="worker memory limit reached while generating obligations")
     except Exception:
-        out.update(status="crash", reason=traceback.format_exc())
+        return None, dict(status="crash", reason=traceback.format_exc())
+    return obls, dict(info=info, paths=n_paths)
+
+
+def verify_one(args):
+    """In-process variant (no guard): used by the self-test on small functions."""
+    qual, repo, timeout_ms = args
+    t0 = time.time()
+    out = dict(qual=qual, obligations=[], info=None, paths=0, status="ok", reason="", gen_s=0.0, solve_s=0.0)
+    obls, meta = _generate(qual, repo)
+    out.update(meta)
+    if obls is None:
         return out
-    out["info"], out["paths"] = info, n_paths
     out["gen_s"] = time.time() - t0
     t1 = time.time()
-    # group by identical hypothesis lists (same path) to reuse the solver
-    groups = {}
     for o in obls:
-        groups.setdefault(tuple(id(h) for h in o.hyps) if False else len(groups) if o.kind == "canary" else ("g", id(o.hyps)), []).append(o)
-    for o in obls:
-        if o.kind == "canary":
-            (st, dt, why), = discharge(o.hyps, [o.goal], min(timeout_ms, 2500), portfolio=False)
-            # a canary is fine when False is NOT provable
-            status = "vacuous" if st == "discharged" else "ok"
-        else:
-            (st, dt, why), = discharge(o.hyps, [o.goal], timeout_ms)
-            status = st
-        out["obligations"].append(dict(name=o.name, kind=o.kind, clause=o.clause, tag=o.tag, status=status,
-                                       time=round(dt, 4), reason=why, trace=o.trace[-6:]))
+        out["obligations"].append(_solve(o, timeout_ms))
     out["solve_s"] = time.time() - t1
+    return out
+
+
+def _child(qual, repo, timeout_ms, conn, skip):
+    try:
+        import resource
+        resource.setrlimit(resource.RLIMIT_AS, (MEM_LIMIT, MEM_LIMIT))
+    except Exception:       # noqa: BLE001
+        pass
+    try:
+        t0 = time.time()
+        obls, meta = _generate(qual, repo)
+        if obls is None:
+            conn.send(("fail", meta))
+            return
+        conn.send(("gen", dict(meta, gen_s=time.time() - t0, n=len(obls),
+                               heads=[dict(name=o.name, kind=o.kind, clause=o.clause, tag=o.tag, trace=o.trace[-6:]) for o in obls])))
+        for i, o in enumerate(obls):
+            if i in skip:
+                continue
+            conn.send(("start", i))
+            try:
+                r = _solve(o, timeout_ms)
+            except MemoryError:
+                r = dict(name=o.name, kind=o.kind, clause=o.clause, tag=o.tag, status="timeout", time=0.0, trace=o.trace[-6:],
+                         reason="worker memory limit reached")
+            except Exception as ex:     # noqa: BLE001  (z3 reports resource exhaustion as Z3Exception)
+                r = dict(name=o.name, kind=o.kind, clause=o.clause, tag=o.tag, status="timeout", time=0.0, trace=o.trace[-6:],
+                         reason=f"solver error: {str(ex)[:120]}")
+            conn.send(("res", i, r))
+        conn.send(("end",))
+    except BaseException:   # noqa: BLE001
+        try:
+            conn.send(("fail", dict(status="crash", reason=traceback.format_exc())))
+        except Exception:   # noqa: BLE001
+            pass
+    finally:
+        conn.close()
+
+
+def verify_guarded(args):
+    qual, repo, timeout_ms = args
+    out = dict(qual=qual, obligations=[], info=None, paths=0, status="ok", reason="", gen_s=0.0, solve_s=0.0)
+    ctx = mp.get_context("fork")
+    results, heads, n = {}, None, None
+    hard = 2 * timeout_ms / 1000.0 + 60.0          # two solver configurations per obligation, plus slack
+    t_solve = time.time()
+    for attempt in range(MAX_RESPAWN + 1):
+        parent, child = ctx.Pipe(duplex=False)
+        pr = ctx.Process(target=_child, args=(qual, repo, timeout_ms, child, set(results)), daemon=True)
+        pr.start()
+        child.close()
+        cur, finished, why = None, False, ""
+        deadline = time.time() + GEN_DEADLINE
+        try:
+            while True:
+                if not parent.poll(max(0.0, deadline - time.time())):
+                    why = "no answer within the hard deadline (worker killed)"
+                    break
+                try:
+                    msg = parent.recv()
+                except (EOFError, OSError):
+                    why = "worker died (memory limit or solver crash)"
+                    break
+                if msg[0] == "fail":
+                    out.update(msg[1])
+                    finished = True
+                    break
+                if msg[0] == "gen":
+                    m = msg[1]
+                    heads, n = m["heads"], m["n"]
+                    out["info"], out["paths"] = m["info"], m["paths"]
+                    out["gen_s"] = max(out["gen_s"], m["gen_s"])
+                    t_solve = time.time() if attempt == 0 else t_solve
+                    deadline = time.time() + hard
+                elif msg[0] == "start":
+                    cur = msg[1]
+                    deadline = time.time() + hard
+                elif msg[0] == "res":
+                    results[msg[1]] = msg[2]
+                    cur = None
+                    deadline = time.time() + hard
+                elif msg[0] == "end":
+                    finished = True
+                    break
+        finally:
+            if pr.is_alive():
+                pr.kill()
+            pr.join(5)
+            parent.close()
+        if finished:
+            break
+        if heads is None:
+            out.update(status="undecided", reason=f"generation of obligations: {why}")
+            return out
+        if cur is not None:
+            results[cur] = dict(heads[cur], status="timeout", time=hard, reason=why)
+    if heads is not None:
+        for i in range(n):
+            if i not in results:
+                results[i] = dict(heads[i], status="timeout", time=0.0, reason="not attempted: the worker of this function was restarted too often")
+        out["obligations"] = [results[i] for i in range(n)]
+        out["solve_s"] = time.time() - t_solve
     return out
 
 
 def verify_many(quals, repo, timeout_ms=20000, jobs=None):
     jobs = jobs or min(16, os.cpu_count() or 4)
-    with ProcessPoolExecutor(max_workers=jobs) as ex:
-        return list(ex.map(verify_one, [(q, repo, timeout_ms) for q in quals]))
+    from .engine import Engine                    # noqa: F401  (imported before the worker threads fork, so no child forks mid-import)
+    from ..contracts.registry import build
+    build()
+    with ThreadPoolExecutor(max_workers=jobs) as ex:
+        return list(ex.map(verify_guarded, [(q, repo, timeout_ms) for q in quals]))
 
 
 if __name__ == "__main__":
@@ -61,7 +182,7 @@ if __name__ == "__main__":
     if not quals:
         from ..contracts.registry import build
         quals = [q for q, c in build().contracts.items() if not c.assumed]
-    res = verify_many(quals, repo) if len(quals) > 1 else [verify_one((quals[0], repo, 20000))]
+    res = verify_many(quals, repo)
     for r in res:
         obl = [o for o in r["obligations"] if o["kind"] != "canary"]
         ok = sum(o["status"] == "discharged" for o in obl)
